@@ -20,8 +20,22 @@ from dataclasses import dataclass, field
 from typing import Callable, Any
 from enum import Enum
 from datetime import datetime, timedelta
+import builtins
 import threading
 import time
+
+
+def print(*args, **kwargs):  # noqa: A001 - deliberately shadows the builtin within this module
+    """Best-effort console output.
+
+    The messages below are decoration: a console that cannot show them (an
+    ASCII or closed stdout, a lone surrogate in a caller-supplied label) must
+    never interrupt a ledger operation or leave it half applied.
+    """
+    try:
+        builtins.print(*args, **kwargs)
+    except Exception:
+        pass
 
 
 class MetabolicState(Enum):
